@@ -1751,20 +1751,3 @@ Example lattice3_example :
   map (fun d => length (cat_nodes (cat_add_all cat_empty (lattice3 3 2 2)) d)) [0; 1; 2; 3] = [4 * 3 * 3; 3 * 3 * 3 + 4 * 2 * 3 + 4 * 3 * 2; 4 * 2 * 2 + 3 * 3 * 2 + 3 * 2 * 3; 3 * 2 * 2].
 Proof. vm_compute. reflexivity. Qed.
 
-Print Assumptions add_idempotent.
-Print Assumptions lookup_after_add.
-Print Assumptions nodes_are_cells.
-Print Assumptions order_independent.
-Print Assumptions orientation_independent.
-Print Assumptions reoriented_copy_known.
-Print Assumptions lookup_reoriented_subentity.
-Print Assumptions order_orientation_independent.
-Print Assumptions graph_invariants.
-Print Assumptions higher_neighbours.
-Print Assumptions boundary_spec.
-Print Assumptions nodup_corners_faces.
-Print Assumptions same_faces_conforming.
-Print Assumptions lattice2_counts.
-Print Assumptions lattice3_counts.
-Print Assumptions L_counts.
-Print Assumptions L_hypotheses.
